@@ -193,15 +193,15 @@ even if no explored input behaves differently. -/
 theorem state_shape_matches_source :
     Shapes.globalState = [] ∧
     Shapes.blockHandler = [("config", "BlockHandlerConfig"), ("states", "LruCache<RequestCacheKey<Endpoint>,BlockState>")] ∧
-    Shapes.blockHandlerConfig = [("max_total_message_size", "usize"), ("cache_expiry_duration", "Duration")] ∧
-    Shapes.requestCacheKey = [("request_type_ord", "u8"), ("path", "Vec<Vec<u8>>"), ("requester", "Option<Endpoint>")] ∧
-    Shapes.blockState = [("last_request_block2", "Option<BlockValue>"), ("cached_response", "Option<Packet>"), ("cached_request_payload", "Option<Vec<u8>>")] ∧
-    Shapes.blockValue = [("num", "u16"), ("more", "bool"), ("size_exponent", "u8")] ∧
+    Shapes.blockHandlerConfig = [("cache_expiry_duration", "Duration"), ("max_total_message_size", "usize")] ∧
+    Shapes.requestCacheKey = [("path", "Vec<Vec<u8>>"), ("request_type_ord", "u8"), ("requester", "Option<Endpoint>")] ∧
+    Shapes.blockState = [("cached_request_payload", "Option<Vec<u8>>"), ("cached_response", "Option<Packet>"), ("last_request_block2", "Option<BlockValue>")] ∧
+    Shapes.blockValue = [("more", "bool"), ("num", "u16"), ("size_exponent", "u8")] ∧
     Shapes.coapRequest = [("message", "Packet"), ("response", "Option<CoapResponse>"), ("source", "Option<Endpoint>")] ∧
     Shapes.coapResponse = [("message", "Packet")] ∧
-    Shapes.packet = [("header", "Header"), ("token", "Vec<u8>"), ("options", "BTreeMap<u16,LinkedList<Vec<u8>>>"), ("payload", "Vec<u8>")] ∧
-    Shapes.header = [("ver_type_tkl", "u8"), ("code", "MessageClass"), ("message_id", "u16")] ∧
-    Shapes.headerRaw = [("ver_type_tkl", "u8"), ("code", "u8"), ("message_id", "u16")] :=
+    Shapes.packet = [("header", "Header"), ("options", "BTreeMap<u16,LinkedList<Vec<u8>>>"), ("payload", "Vec<u8>"), ("token", "Vec<u8>")] ∧
+    Shapes.header = [("code", "MessageClass"), ("message_id", "u16"), ("ver_type_tkl", "u8")] ∧
+    Shapes.headerRaw = [("code", "u8"), ("message_id", "u16"), ("ver_type_tkl", "u8")] :=
   ⟨ShapeTie.no_global_state, ShapeTie.blockHandler, ShapeTie.blockHandlerConfig, ShapeTie.requestCacheKey, ShapeTie.blockState, ShapeTie.blockValue, ShapeTie.coapRequest, ShapeTie.coapResponse, ShapeTie.packet, ShapeTie.header, ShapeTie.headerRaw⟩
 
 end CoapLite.C08
